@@ -358,7 +358,15 @@ def explicit_variator(name, spec, rng):
         if name in MUTATION_ONLY:
             return O.CompoundMutation(O.PM(1, 20.0), O.BitFlip(0.3), O.Swap(0.7), O.Replace(0.7))
         # (float probabilities for BitFlip: the integer shorthand divides by the number of bits, and there may be no bit string)
-        return O.CompoundOperator(O.SBX(1.0, 15.0), O.HUX(0.9), O.PMX(0.9), O.SSX(0.9), O.PM(1, 20.0), O.BitFlip(0.3), O.Swap(0.5), O.Replace(0.5))
+        if rng.random() < 0.5:
+            return O.CompoundOperator(O.SBX(1.0, 15.0), O.HUX(0.9), O.PMX(0.9), O.SSX(0.9), O.PM(1, 20.0), O.BitFlip(0.3), O.Swap(0.5), O.Replace(0.5))
+        # the per-type crossovers in any order and with any rates, followed by none, some or all of the per-type mutations (rarely
+        # firing ones included): whatever one operator of the chain leaves behind is what the next one and evaluate_all see
+        xs = [O.SBX(rng.choice([1.0, 0.6]), 15.0), O.HUX(rng.choice([0.9, 0.3])), O.PMX(rng.choice([0.9, 0.3])), O.SSX(rng.choice([0.9, 0.5, 0.1]))]
+        rng.shuffle(xs)
+        ms = [m for m in (O.PM(rng.choice([0.05, 0.5]), 20.0), O.BitFlip(rng.choice([0.02, 0.3])), O.Swap(rng.choice([0.05, 0.5])), O.Replace(rng.choice([0.05, 0.5])))
+              if rng.random() < 0.5]
+        return O.CompoundOperator(*(xs + ms))
     mut = {"real": lambda: rng.choice([O.PM(1, 20.0), O.PM(0.5, 5.0), O.UM(1), O.UniformMutation(0.5, 0.5)]),
            "int": lambda: O.BitFlip(1), "binary": lambda: O.BitFlip(2),
            "perm": lambda: rng.choice([O.Swap(0.9), O.Insertion(0.9), O.CompoundMutation(O.Swap(0.5), O.Insertion(0.5))]),
